@@ -50,3 +50,8 @@ chk("C19",
     "The Go race detector (which implies checkptr) is the oracle: dedicated hostile workloads without harness-side synchronisation on the operation path run all API operations (Get/Set/SetWithTTL/Delete/Range/Len/EstimatedSize/Stats/Wait/SaveCache, loader-backed Get, Close racing readers) with a removal listener on plain, loading, hybrid and hybrid-loading caches, tiny and large MaxSize, short TTLs, GOMAXPROCS 2/4/16, each run in its own process. Reports are parsed from the race log, de-duplicated by theine frame set; a report whose stacks contain only harness frames marks the check broken. Evidence lists which op-type pairs were observed overlapping in time.",
     "A clean run is not a proof of race freedom: only interleavings that occurred are judged. Writers racing Close and concurrent Wait callers are exercised by C10/C20 instead (they block forever on the unrepaired tree).",
     "Go race detector over hostile concurrent workloads, reports counted from the race log")
+
+chk("C08",
+    "The real Buffer stripe is driven by 2-4 readers under a cooperative scheduler that yields before every atomic step of Add/Free (hook H3), so each execution is one exactly-known interleaving: PCT-priority and random-walk schedules (1-20 adds per reader, prefill 0-15) plus preemption-bounded depth-first enumeration (<=2, thorough <=3 preemptions) of scripts placed around the fill point, including 16 further adds arriving while the previous batch is still held. Per schedule: every delivered id was added, non-zero and delivered at most once, a batch is stable while its token is held, the token is available at quiescence, and 33 further sequential adds deliver a batch. Store level: 2-64 readers during maintenance stalled by a held policy lock / SaveCache into a blocked writer / a blocked removal listener; after release every stripe's head must advance during 128 further hits per stripe and 4096 hits on one key must raise its frequency estimate. Thorough adds a -race pass of the store rounds.",
+    "Cooperative scheduling serialises the readers, so memory-ordering effects of truly parallel atomics are only exercised by the store-level rounds. DFS cases that exceed their schedule budget are reported as not enumerated completely; exhaustive is never claimed.",
+    "cooperative deterministic scheduler over hook points (PCT + preemption-bounded DFS) with delivery ledger; progress oracle on live stripes")
